@@ -32,7 +32,7 @@ void harness(void)
 	g_LA = g_LB = L;
 	w = verif_nd_size("w");
 	VERIF_ASSUME(w < L || L == 0);
-	g_nq_w = w;
+	g_nq_wA = g_nq_wB = w;
 	clean = verif_nd_bool("clean");
 	if (clean)
 		VERIF_ASSUME(W16_ALL_CLEAN(p, L));
